@@ -35,6 +35,7 @@ def run(ctx, rep):
     rep.section(t8, ctx, rep, T)
     rep.section(wiring.backend_wiring, ctx, rep, 'T7', only_fields={'type_mappings'})
     rep.section(t7_unchanged, ctx, rep)
+    rep.section(t10, ctx, rep)
 
 
 def t8(ctx, rep, T):
@@ -232,6 +233,35 @@ def t9(ctx, rep, T):
                         bad.append((v, outs[:2]))
                 b0 = bad[0][0] if bad else ''
                 rep.check(not bad, 'T9', f'{be}:option-marker-dropped', f'marker omitted only for {sorted(accepted)}, all nullable by themselves', f"{be}: Option<T> is rendered without its marker `{marker}` for inner types {sorted(accepted)}, but {', '.join(f'{v} renders as {o}' for v, o in bad)} — not a nullable form in the target, so Option<{b0}<..>> and {b0}<..> become the same type and the Option layer is lost", site)
+
+
+SURGERY = ('replace', 'replacen', 'trim_matches', 'trim_start_matches', 'trim_end_matches', 'strip_prefix', 'strip_suffix', 'truncate',
+           'split', 'rsplit', 'split_once', 'rsplit_once', 'splitn', 'replace_range', 'drain', 'remove', 'retain', 'split_at', 'split_terminator')
+FORMATTERS = ('format_type', 'format_simple_type', 'format_generic_type', 'format_special_type', 'format_generic_parameters')
+
+
+def t10(ctx, rep):
+    """T10 (composition only): a rendered type is a finished piece of target text in which user type names, mapped names and
+    keywords are no longer distinguishable.  Backends may wrap it (`Optional[..]`, `List<..>`, `Annotated[.., ..]`) but never
+    rewrite inside it: a `replace`/`trim_*`/`strip_*`/`split`/`truncate` on the result of a format_* method edits every
+    occurrence of the pattern — also the one inside a user type name (`Megabytes` → `MegaAnnotated[bytes, ..]`), so user types
+    stop keeping their name and a mapping is applied where the mapped Rust type does not occur."""
+    n = 0
+    for be, (struct, file) in emit.BACKENDS.items():
+        for f in ctx.astq['functions']:
+            if not f['file'].endswith(file):
+                continue
+            for c in f['calls']:
+                if c.get('f') not in SURGERY or c.get('recv') is None:
+                    continue
+                src = [x.get('f') for x in vt.walk(c['recv']) if isinstance(x, dict) and x.get('k') == 'call' and x.get('f') in FORMATTERS and x.get('recv') is not None]
+                if not src:
+                    continue
+                n += 1
+                rep.fail('T10', f"{be}:{f['name']}:{c['f']}-on-rendered-type", f"{be}: {f['qual']} applies `.{c['f']}(..)` to a rendered type (`{vt.show(c['recv'])[:70]}`, produced by {sorted(set(src))}): the pattern also matches inside user type names and mapped names nested in it, so a user type loses its name / a mapping is applied where the mapped type does not occur", {'file': f['file'], 'line': c.get('line')})
+    rep.analysed['T10:textual rewrites of rendered types'] = n
+    if n == 0:
+        rep.ok('T10', 'no-text-surgery-on-rendered-types', 'rendered types are only wrapped, never rewritten')
 
 
 def t7_unchanged(ctx, rep):
